@@ -15,7 +15,14 @@ defect would make it wrong) does not match and is reported as a VIOLATION.
 Wire format: coq/theories/C04_Wire.v (comparator modes 0 ascending, 2/3
 ascending/descending over the "extreme" keys ext_key(k), 4/5 and 6/7
 ascending/descending at the string / named-string+struct instances, anything
-else descending; the observation carries wire keys in every mode)."""
+else descending; the observation carries wire keys in every mode).
+
+Comparators with ties (modes 8/9 a/2, 10/11 a%3, 12/13 case-insensitive strings
+= a/4 on the wire; Go's truncating / and %): the ordered map is keyed on the
+comparator's equivalence class and an entry keeps the key it was created with.
+Non-strict comparators (14 a<=b, 15 a>=b): the reference is the bag machine
+C04_ModelTies.run_bag (nothing is ever found, every Upsert adds an entry before
+the first entry it is <= to); every Delete there answers ErrorNotFound."""
 
 
 def _ext_key(k):
@@ -26,11 +33,110 @@ def _ext_key(k):
     return [r - 500, 2**63 - 1 - 999 + r, -2**63 + r, 2**62 - 500 + r, -2**62 - 500 + r][k // 1000]
 
 
+def _tquot(a, n):
+    """Go's truncating division / Z.quot"""
+    q = abs(a) // n
+    return q if a >= 0 else -q
+
+
+def _c04_bag(inp):
+    """modes 14, 15: mirror of C04_ModelTies.run_bag"""
+    mode = inp[0]
+    le = (lambda a, b: a <= b) if mode == 14 else (lambda a, b: a >= b)
+    m = []
+    fails = 0
+    spec, dfct = [], []
+
+    def trav():
+        out = [len(m)]
+        for k, v in m:
+            out += [k, v]
+        return out
+
+    for i in range(1, len(inp), 3):
+        op, a, b = inp[i], inp[i + 1], inp[i + 2]
+        if op == 0:
+            j = 0
+            while j < len(m) and not le(a, m[j][0]):
+                j += 1
+            m.insert(j, (a, b))
+            spec += [0]; dfct += [0]
+        elif op == 1:
+            fails += 1
+            spec += [1, 1]; dfct += [1, 1]
+        elif op == 2:
+            spec += [1, 1]; dfct += [1, 1]
+        elif op == 3:
+            spec += [len(m)]; dfct += [len(m) - fails]
+        elif op == 4:
+            r = trav()
+            spec += r; dfct += r
+        else:
+            return None
+    spec += [len(m)] + trav()
+    dfct += [len(m) - fails] + trav()
+    return spec, dfct, fails
+
+
+def _c04_ties(inp):
+    """modes 8..13: the ordered map on the comparator's equivalence classes; an entry keeps its first key"""
+    mode = inp[0]
+    if mode in (8, 9):
+        cls = lambda k: _tquot(k, 2)
+    elif mode in (10, 11):
+        cls = lambda k: k - 3 * _tquot(k, 3)
+    else:
+        cls = lambda k: _tquot(k, 4)
+    desc = mode % 2 == 1
+    m = {}
+    fails = 0
+    spec, dfct = [], []
+
+    def trav():
+        cs = sorted(m, reverse=desc)
+        out = [len(cs)]
+        for c in cs:
+            out += [m[c][0], m[c][1]]
+        return out
+
+    for i in range(1, len(inp), 3):
+        op, a, b = inp[i], inp[i + 1], inp[i + 2]
+        c = cls(a)
+        if op == 0:
+            m[c] = (m[c][0] if c in m else a, b)
+            spec += [0]; dfct += [0]
+        elif op == 1:
+            if c in m:
+                del m[c]
+                r = [0]
+            else:
+                fails += 1
+                r = [1, 1]
+            spec += r; dfct += r
+        elif op == 2:
+            r = [0, m[c][0], m[c][1]] if c in m else [1, 1]
+            spec += r; dfct += r
+        elif op == 3:
+            spec += [len(m)]; dfct += [len(m) - fails]
+        elif op == 4:
+            r = trav()
+            spec += r; dfct += r
+        else:
+            return None
+    spec += [len(m)] + trav()
+    dfct += [len(m) - fails] + trav()
+    return spec, dfct, fails
+
+
 def _c04_expected(inp):
     """(spec observation, observation with the defect, number of failed deletes)"""
     if not inp or (len(inp) - 1) % 3 != 0:
         return None
     mode = inp[0]
+    if mode in (14, 15):
+        return _c04_bag(inp)
+    if 8 <= mode <= 13:
+        return _c04_ties(inp)
     desc = mode not in (0, 2, 4, 6)
     order = _ext_key if mode in (2, 3) else (lambda k: k)
     m = {}
